@@ -27,6 +27,7 @@ struct event
     std::vector<sz> enabled;
     std::vector<sz> bin;
     bool coords_intact = true;     // dens event: coordinates still hold what the map wrote
+    bool dens_intact = true;       // dens event: the density buffer still holds what the map wrote with the coordinates
     T value = T();                 // integrand event: returned value
     bool touched = false;          // integrand event: requested the weight itself
 };
@@ -39,6 +40,7 @@ struct world
     std::vector<int> touch;        // per call
     sz calls = 0;
     std::vector<T> last_coords;    // what the map wrote last
+    std::vector<T> last_dens;
 };
 template <typename T> static world<T>& W() { static world<T> w; return w; }
 
@@ -103,6 +105,9 @@ struct map_fn
             e.kind = ev_coords;
             for (sz i = 0; i != coords.size(); ++i) coords[i] = rn[i] * T(0.5) + T(0.25) * T(channel % 2);
             w.last_coords = coords;
+            // the map may fill the densities already now ("can be calculated at this time point")
+            for (sz i = 0; i != dens.size(); ++i) dens[i] = T(1) + T(i) / T(4);
+            w.last_dens = dens;
             e.coords = coords;
             w.log.push_back(e);
             return T(1);
@@ -111,7 +116,9 @@ struct map_fn
         e.coords = coords;
         e.coords_intact = coords.size() == w.last_coords.size();
         for (sz i = 0; e.coords_intact && i != coords.size(); ++i) e.coords_intact = vf::same_bits(coords[i], w.last_coords[i]);
-        for (auto& d : dens) d = T(1);
+        e.dens_intact = dens.size() == w.last_dens.size();
+        for (sz i = 0; e.dens_intact && i != dens.size(); ++i) e.dens_intact = vf::same_bits(dens[i], w.last_dens[i]);
+        // the densities stay as they were filled with the coordinates
         w.log.push_back(e);
         return T(2);
     }
@@ -182,6 +189,7 @@ static void check_log(report& r, cfg const& c, sz n, sz dims, hep::vegas_pdf<T> 
             if (de.rn_addr != ce.rn_addr || de.coords_addr != ce.coords_addr || de.dens_addr != ce.dens_addr) { fail("buffer-identity", "densities requested with other buffers than the coordinates"); return; }
             for (sz k = 0; k != dims; ++k) if (!vf::same_bits(de.rn[k], ce.rn[k])) { fail("buffers-changed", "random numbers changed between the two map calls"); return; }
             if (!de.coords_intact) { fail("buffers-changed", "coordinates changed between the two map calls"); return; }
+            if (!de.dens_intact) { fail("buffers-changed", "the density buffer changed between the two map calls"); return; }
             if (de.enabled != enabled) { fail("enabled-list-wrong", "enabled channels passed with the densities request: " + vf::join(de.enabled)); return; }
         }
     }
